@@ -138,6 +138,10 @@ class MathSimplification:
             try:
                 new_conditions = gb.simplify_equalities(needed, unbound)
                 for cond in new_conditions:
+                    if cond in gb.equalities:
+                        # a literal that is handed back as it came in keeps its sign
+                        newbody.append(cond)
+                        continue
                     conditions = set(conditions_of_body_agg(cond.atom))
                     if (
                         stm.ast_type != ASTType.Rule
